@@ -151,7 +151,10 @@ func main() {
 		}
 		selected[name] = true
 		ct := cf.ByFunc[name]
-		if ct == nil || ct.Kind != "func" || ct.Flags["trusted"] || ct.Flags["inline"] {
+		if ct != nil && ct.Flags["bounded"] {
+			x.assumptions[name+" is not under contract: decided by the bounded oracle only"] = true
+		}
+		if ct == nil || ct.Kind != "func" || ct.Flags["trusted"] || ct.Flags["inline"] || ct.Flags["bounded"] {
 			continue
 		}
 		fn := funcs[name]
@@ -240,6 +243,19 @@ func main() {
 			if *verbose {
 				fmt.Printf("FAILED %s  path=%s pos=%s\n   %s\n", o.Name, o.Path, o.Pos, o.Output)
 			}
+		}
+	}
+	for _, so := range x.structuralObligations() {
+		if *fnFlag != "" || (*prop != "" && !hasProp(so.props, *prop)) {
+			continue
+		}
+		rep.Obligations++
+		byName[so.name] = &agg{1, 0}
+		if so.ok {
+			rep.Discharged++
+			rep.ByBackend["structural"]++
+		} else {
+			rep.Failed = append(rep.Failed, FailedOb{so.name, "pkg", "", "", so.why})
 		}
 	}
 	rep.NamedObls = len(byName)
